@@ -4,7 +4,10 @@
 //
 //   SYS   ::= point <lo*2> <hi*2> <clo*2> <chi*2> <dt> <min> <max>      state (x,y)         control (vx,vy)
 //           | uni   <lo*2> <hi*2> <clo*2> <chi*2> <dt> <min> <max>      state (x,y,yaw) SE2 control (v,omega)
+//           | car   <lo*2> <hi*2> <clo*2> <chi*2> <dt> <min> <max>      state (x,y,yaw) SE2 control (v,steer)
 //           | dint  <lo*4> <hi*4> <clo*2> <chi*2> <dt> <min> <max>      state (x,y,vx,vy)   control (ax,ay)
+//   GOAL  ::= goal (pos | pred | l1) <reals> <thr>     pos: sampleable region, L2 position distance; pred: plain ob::Goal
+//                                                    predicate (no distance); l1: ob::GoalRegion with |dx|+|dy| (not sampleable)
 //   ENV   ::= boxes 2 <k> (<lo*2> <hi*2>)*k                             (planning.h)
 //   VAL   ::= v s <n> <b>*n      scripted by isValid call number (calls beyond n answer 1)
 //           | v e ENV            satisfiesBounds && outside every box
@@ -14,8 +17,11 @@
 //   prop SYS FORM <steps:int> st <reals> ct <reals>          propagate
 //   pcheck  SYS ENV <n> (<reals>)*n (<ctl>)*(n-1) (<dur>)*(n-1)     PathControl::check
 //   pinterp SYS ENV <n> …same…                                      PathControl::interpolate
+//   pgeom   SYS ENV <n> …same…                                      PathControl::asGeometric
 //   rrt  SYS ENV starts <n> (<reals>)*n goal <reals> <thr> k=<n> inter=<0|1> bias=<bits> seed=<n> iters=<n>
 //        -> two lines: the result, and the `rrtplay …` line (recorded draws) for the Lean driver
+//   sst  SYS ENV starts <n> (<reals>)*n GOAL sel=<bits> prune=<bits> bias=<bits> seed=<n> iters=<n>
+//        -> two lines: the result (with tree + witnesses), and the `sstplay …` line for the Lean driver
 //   plan <planner> SYS ENV starts <n> (<reals>)*n goal <reals> <thr> k=<n> bias=<bits> seed=<n> budget=<n>
 //
 // doubles are decimal u64 bit patterns.  The three systems are written here once (SysPropagator) and
@@ -36,12 +42,14 @@
 #include <ompl/control/planners/syclop/SyclopEST.h>
 #include <ompl/control/planners/syclop/GridDecomposition.h>
 #include <ompl/base/goals/GoalSampleableRegion.h>
+#include <ompl/base/goals/GoalRegion.h>
 #include <ompl/base/ProjectionEvaluator.h>
 #include <ompl/datastructures/NearestNeighborsLinear.h>
 #include <ompl/util/RandomNumbers.h>
 #include <map>
 
 namespace oc = ompl::control;
+namespace og = ompl::geometric;
 namespace ob = ompl::base;
 using Toks = std::vector<std::string>;
 
@@ -58,7 +66,7 @@ struct Sys
 
     unsigned nreals() const
     {
-        return kind == "uni" ? 3 : nb;
+        return (kind == "uni" || kind == "car") ? 3 : nb;
     }
 
     void parse(const Toks &t, size_t &i)
@@ -66,7 +74,7 @@ struct Sys
         if (i >= t.size())
             throw vp::ParseError("sys");
         kind = t[i++];
-        if (kind == "point" || kind == "uni")
+        if (kind == "point" || kind == "uni" || kind == "car")
             nb = 2;
         else if (kind == "dint")
             nb = 4;
@@ -94,7 +102,7 @@ struct Sys
         ob::RealVectorBounds b(nb);
         b.low = lo;
         b.high = hi;
-        if (kind == "uni")
+        if (kind == "uni" || kind == "car")
         {
             auto s = std::make_shared<ob::SE2StateSpace>();
             s->setBounds(b);
@@ -143,6 +151,18 @@ public:
             r->setY(y + u0 * sin(yaw) * duration);
             r->setYaw(yaw + u1 * duration);
             // bounded heading: the library's own SO2 wrap after every step
+            si_->getStateSpace()->as<ob::SE2StateSpace>()->getSubspace(1)->enforceBounds(
+                r->as<ob::SO2StateSpace::StateType>(1));
+        }
+        else if (kind_ == "car")
+        {
+            // kinematic car, wheel base 1, ONE explicit Euler step per call: propagate(s,u,k*dt) != k x propagate(s,u,dt)
+            const auto *s = state->as<ob::SE2StateSpace::StateType>();
+            const double x = s->getX(), y = s->getY(), yaw = s->getYaw();
+            auto *r = result->as<ob::SE2StateSpace::StateType>();
+            r->setX(x + u0 * cos(yaw) * duration);
+            r->setY(y + u0 * sin(yaw) * duration);
+            r->setYaw(yaw + u0 * (sin(u1) / cos(u1)) * duration);
             si_->getStateSpace()->as<ob::SE2StateSpace>()->getSubspace(1)->enforceBounds(
                 r->as<ob::SO2StateSpace::StateType>(1));
         }
@@ -236,6 +256,55 @@ private:
     std::vector<double> g_;
     Events *ev_;
 };
+
+// a plain predicate goal: Goal::isSatisfied(st, &d) leaves d at numeric_limits<double>::max()
+class PredGoal : public ob::Goal
+{
+public:
+    PredGoal(const ob::SpaceInformationPtr &si, std::vector<double> g, double thr) : ob::Goal(si), g_(std::move(g)), thr_(thr)
+    {
+    }
+    bool isSatisfied(const ob::State *st) const override
+    {
+        std::vector<double> r;
+        si_->getStateSpace()->copyToReals(r, st);
+        const double dx = r[0] - g_[0], dy = r[1] - g_[1];
+        return sqrt(dx * dx + dy * dy) < thr_;
+    }
+
+private:
+    std::vector<double> g_;
+    double thr_;
+};
+
+// a (non-sampleable) goal region whose distance is not the state-space distance: L1 over the position
+class L1Goal : public ob::GoalRegion
+{
+public:
+    L1Goal(const ob::SpaceInformationPtr &si, std::vector<double> g, double thr) : ob::GoalRegion(si), g_(std::move(g))
+    {
+        setThreshold(thr);
+    }
+    double distanceGoal(const ob::State *st) const override
+    {
+        std::vector<double> r;
+        si_->getStateSpace()->copyToReals(r, st);
+        return fabs(r[0] - g_[0]) + fabs(r[1] - g_[1]);
+    }
+
+private:
+    std::vector<double> g_;
+};
+
+static ob::GoalPtr makeGoal(const std::string &kind, const ob::SpaceInformationPtr &si, const std::vector<double> &g, double thr,
+                            Events *ev)
+{
+    if (kind == "pos")
+        return std::make_shared<PosGoal>(si, g, thr, ev);
+    if (kind == "pred")
+        return std::make_shared<PredGoal>(si, g, thr);
+    return std::make_shared<L1Goal>(si, g, thr);
+}
 
 // ------------------------------------------------------------------------------------------ recorders
 class RecStateSampler : public ob::StateSampler
@@ -628,7 +697,7 @@ static std::string showPath(const Sys &sys, const oc::PathControl &p)
     return s;
 }
 
-static std::string opPath(const Toks &t, bool interp)
+static std::string opPath(const Toks &t, int mode)  // 0 check, 1 interpolate, 2 asGeometric
 {
     size_t i = 1;
     Sys sys;
@@ -675,8 +744,16 @@ static std::string opPath(const Toks &t, bool interp)
     }
     si->freeState(s);
     si->freeControl(c);
-    if (!interp)
+    if (mode == 0)
         return std::string("check=") + (p.check() ? "1" : "0");
+    if (mode == 2)
+    {
+        og::PathGeometric pg = p.asGeometric();
+        std::string o = "geom n=" + std::to_string(pg.getStateCount());
+        for (size_t j = 0; j < pg.getStateCount(); ++j)
+            o += " " + showSt(sys, pg.getState(j));
+        return o;
+    }
     p.interpolate();
     return showPath(sys, p);
 }
@@ -688,6 +765,7 @@ struct Problem
     vp::Env env;
     std::vector<std::vector<double>> starts;
     std::vector<double> goal;
+    std::string goalKind;
     double thr = 0;
     void parse(const Toks &t, size_t &i)
     {
@@ -702,6 +780,9 @@ struct Problem
         for (unsigned j = 0; j < ns; ++j)
             starts.push_back(needReals(t, i, sys.nreals()));
         expect(t, i, "goal");
+        if (i >= t.size() || (t[i] != "pos" && t[i] != "pred" && t[i] != "l1"))
+            throw vp::ParseError("goal kind");
+        goalKind = t[i++];
         goal = needReals(t, i, sys.nreals());
         thr = vp::needF(t, i);
     }
@@ -764,10 +845,13 @@ static std::string showSolution(const Sys &sys, const ob::ProblemDefinitionPtr &
         if (!p)
             return out + " path=not-a-PathControl";
         out += std::string(" libcheck=") + (p->check() ? "1" : "0");
+        // the goal's own verdict on the reported last state
+        out += std::string(" insidegoal=") +
+               (p->getStateCount() > 0 && pdef->getGoal()->isSatisfied(p->getState(p->getStateCount() - 1)) ? "1" : "0");
         out += " path " + showPath(sys, *p);
     }
     else
-        out += " libcheck=- path none";
+        out += " libcheck=- insidegoal=- path none";
     return out;
 }
 
@@ -812,7 +896,7 @@ static std::string opRrt(const Toks &t, std::string &playLine)
         pdef->addStartState(s0);
     }
     si->freeState(s0);
-    pdef->setGoal(std::make_shared<PosGoal>(si, pb.goal, pb.thr, &ev));
+    pdef->setGoal(makeGoal(pb.goalKind, si, pb.goal, pb.thr, &ev));
     auto planner = std::make_shared<RRTx>(si);
     planner->setNearestNeighbors<ompl::NearestNeighborsLinear>();
     planner->setGoalBias(bias);
@@ -895,7 +979,7 @@ static std::string opRrtPlay(const Toks &t)
         pdef->addStartState(s0);
     }
     si->freeState(s0);
-    pdef->setGoal(std::make_shared<PosGoal>(si, pb.goal, pb.thr, nullptr));
+    pdef->setGoal(makeGoal(pb.goalKind, si, pb.goal, pb.thr, nullptr));
     auto planner = std::make_shared<RRTx>(si);
     planner->setNearestNeighbors<ompl::NearestNeighborsLinear>();
     planner->setGoalBias(0.0);
@@ -915,6 +999,116 @@ static std::string opRrtPlay(const Toks &t)
                std::to_string(ds.ci) + "/" + std::to_string(ds.controls.size()) + " counts=" + std::to_string(ds.ki) + "/" +
                std::to_string(ds.counts.size()) + " evals=" + std::to_string(cnt->evals.load());
     return showSolution(sys, pdef, st, *si) + " | " + planner->dumpTree(sys);
+}
+
+// control::SST with its tree, witnesses and RNG reachable (all protected)
+class SSTx : public oc::SST
+{
+public:
+    using oc::SST::SST;
+    void seedRng(std::uint_fast32_t s)
+    {
+        rng_.setLocalSeed(s);
+    }
+    std::string dump(const Sys &sys) const
+    {
+        std::vector<Motion *> ms, ws;
+        nn_->list(ms);
+        witnesses_->list(ws);
+        std::map<const Motion *, size_t> idx;
+        for (size_t j = 0; j < ms.size(); ++j)
+            idx[ms[j]] = j;
+        auto pos = [&](const Motion *m) {
+            auto it = idx.find(m);
+            return m == nullptr ? std::string("-") : (it == idx.end() ? std::string("x") : std::to_string(it->second));
+        };
+        std::string s = "tree " + std::to_string(ms.size());
+        for (auto *m : ms)
+            s += " [" + showSt(sys, m->state_) + " ; " + showCt(m->control_) + " ; " + std::to_string(m->steps_) + " ; " +
+                 pos(m->parent_) + " ; " + vp::bits(m->accCost_.value()) + " ; " + std::to_string(m->numChildren_) + " ; " +
+                 (m->inactive_ ? "1" : "0") + "]";
+        s += " | wits " + std::to_string(ws.size());
+        for (auto *w : ws)
+            s += " [" + showSt(sys, w->state_) + " ; " + pos(static_cast<Witness *>(w)->rep_) + "]";
+        return s;
+    }
+};
+
+// `sst SYS ENV starts … GOAL sel=<bits> prune=<bits> bias=<bits> seed=<n> iters=<n>` -> the result line and the `sstplay …`
+// line for the Lean driver.  State samples, goal samples and controls are recorded by the wrappers; the step counts come
+// from the planner's own RNG (`rng_.uniformInt(min, max)`, not interceptable), so the planner's RNG is re-seeded with a known
+// local seed and a twin RNG replays its calls (uniform01 for the goal bias when the goal is sampleable, then uniformInt).
+static std::string opSst(const Toks &t, std::string &playLine)
+{
+    size_t i = 1;
+    Problem pb;
+    pb.parse(t, i);
+    double sel = needKVbits(t, i, "sel");
+    double prune = needKVbits(t, i, "prune");
+    double bias = needKVbits(t, i, "bias");
+    unsigned long seed = needKV(t, i, "seed");
+    unsigned long iters = needKV(t, i, "iters");
+    if (i != t.size() || iters > 2000000 || !(sel >= 0) || !(prune >= 0))
+        throw vp::ParseError("sst args");
+    playLine = "sstplay";
+    for (size_t j = 1; j < t.size(); ++j)
+        if (t[j].rfind("bias=", 0) != 0 && t[j].rfind("seed=", 0) != 0 && t[j].rfind("iters=", 0) != 0)
+            playLine += " " + t[j];
+    ompl::RNG::setSeed(seed + 1);
+    Events ev;
+    const Sys &sys = pb.sys;
+    std::shared_ptr<SysPropagator> prop;
+    auto si = makeSI(sys, prop);
+    si->setStateValidityChecker(std::make_shared<EnvValidity>(si, pb.env));
+    sys.space->setStateSamplerAllocator([&ev](const ob::StateSpace *sp) {
+        return std::make_shared<RecStateSampler>(sp, sp->allocDefaultStateSampler(), &ev);
+    });
+    sys.cspace->setControlSamplerAllocator([&ev](const oc::ControlSpace *cs) {
+        return std::make_shared<RecControlSampler>(cs, cs->allocDefaultControlSampler(), &ev);
+    });
+    si->setup();
+    auto pdef = std::make_shared<ob::ProblemDefinition>(si);
+    ob::State *s0 = si->allocState();
+    for (const auto &st0 : pb.starts)
+    {
+        sys.space->copyFromReals(s0, st0);
+        pdef->addStartState(s0);
+    }
+    si->freeState(s0);
+    pdef->setGoal(makeGoal(pb.goalKind, si, pb.goal, pb.thr, &ev));
+    auto planner = std::make_shared<SSTx>(si);
+    planner->setProblemDefinition(pdef);
+    planner->setNearestNeighbors<ompl::NearestNeighborsLinear>();
+    planner->setGoalBias(bias);
+    planner->setSelectionRadius(sel);
+    planner->setPruningRadius(prune);
+    planner->setup();
+    const std::uint_fast32_t lseed = (std::uint_fast32_t)(seed * 7919u + 12345u);
+    planner->seedRng(lseed);
+    ev.log.clear();
+    auto cnt = std::make_shared<vp::EvalCounter>();
+    cnt->fireAt = iters;
+    ob::PlannerStatus st = planner->solve(vp::evalCountPtc(cnt));
+    std::string out = showSolution(sys, pdef, st, *si) + " | " + planner->dump(sys);
+    // weave the twin RNG's step counts into the event log: one `K` after every `C`
+    ompl::RNG twin(lseed);
+    const bool sampleable = pb.goalKind == "pos";
+    std::string woven;
+    auto toks = vp::tokens(ev.log);
+    for (size_t j = 0; j < toks.size(); ++j)
+    {
+        woven += " " + toks[j];
+        if (toks[j] == "C" && j + 2 < toks.size())
+        {
+            woven += " " + toks[j + 1] + " " + toks[j + 2];
+            j += 2;
+            if (sampleable)
+                twin.uniform01();
+            woven += " K " + std::to_string(twin.uniformInt(sys.minSteps, sys.maxSteps));
+        }
+    }
+    playLine += " draws" + woven;
+    return out;
 }
 
 static std::string opPlan(const Toks &t)
@@ -949,7 +1143,7 @@ static std::string opPlan(const Toks &t)
         pdef->addStartState(s0);
     }
     si->freeState(s0);
-    pdef->setGoal(std::make_shared<PosGoal>(si, pb.goal, pb.thr, nullptr));
+    pdef->setGoal(makeGoal(pb.goalKind, si, pb.goal, pb.thr, nullptr));
     auto proj = std::make_shared<XYProjection>(sys.space, sys);
     ob::PlannerPtr planner;
     if (name == "RRT" || name == "RRTi")
@@ -1035,10 +1229,12 @@ int main()
             else if (t[0] == "prop")
                 std::cout << opPwv(t, false) << "\n";
             else if (t[0] == "pcheck")
-                std::cout << opPath(t, false) << "\n";
+                std::cout << opPath(t, 0) << "\n";
             else if (t[0] == "pinterp")
-                std::cout << opPath(t, true) << "\n";
-            else if ((t[0] == "rrt" || t[0] == "plan") && planned)
+                std::cout << opPath(t, 1) << "\n";
+            else if (t[0] == "pgeom")
+                std::cout << opPath(t, 2) << "\n";
+            else if ((t[0] == "rrt" || t[0] == "plan" || t[0] == "sst") && planned)
                 std::cout << "bad-op\n";  // the global RNG seed can be set once per process
             else if (t[0] == "rrt")
             {
@@ -1049,6 +1245,13 @@ int main()
             }
             else if (t[0] == "rrtplay")
                 std::cout << opRrtPlay(t) << "\n";
+            else if (t[0] == "sst")
+            {
+                planned = true;
+                std::string play;
+                std::string out = opSst(t, play);
+                std::cout << out << "\n" << play << "\n";
+            }
             else if (t[0] == "plan")
             {
                 planned = true;
